@@ -59,8 +59,152 @@ func genCond(r *vh.Rand, rs []c1xroute.Rule, depth int) string {
 	}
 }
 
+// ---- end-to-end variant (C12 ∘ C18): structured conditions over primitives the C18 model covers
+
+type econd struct {
+	tok string // prefix-notation tokens for the Lean driver
+	src string // condition text for condition.Build
+}
+
+func safePat(s string) string {
+	return strings.Map(func(c rune) rune {
+		if c == '"' || c == '\\' || c == ':' || c == '|' || c > 126 || c < 33 {
+			return 'q'
+		}
+		return c
+	}, s)
+}
+
+func genECond(r *vh.Rand, rs []c1xroute.Rule, depth int) econd {
+	if depth < 2 && r.Chance(1, 3) {
+		a := genECond(r, rs, depth+1)
+		switch r.Intn(3) {
+		case 0:
+			b := genECond(r, rs, depth+1)
+			return econd{"& " + a.tok + " " + b.tok, "(" + a.src + " && " + b.src + ")"}
+		case 1:
+			b := genECond(r, rs, depth+1)
+			return econd{"| " + a.tok + " " + b.tok, "(" + a.src + " || " + b.src + ")"}
+		default:
+			return econd{"~ " + a.tok, "!" + a.src}
+		}
+	}
+	host := safePat(strings.SplitN(c1xroute.GenProbeHost(r, rs), ":", 2)[0])
+	if host == "" {
+		host = "a.com"
+	}
+	if r.Chance(1, 3) {
+		host += "|" + safePat(c1xroute.GenHostName(r))
+	}
+	path := safePat(c1xroute.GenProbePath(r, rs))
+	if path == "" {
+		path = "/"
+	}
+	if r.Chance(1, 4) {
+		path += "|" + safePat(c1xroute.GenPathName(r))
+	}
+	fold := r.Bool()
+	fs, ft := "false", "0"
+	if fold {
+		fs, ft = "true", "1"
+	}
+	one := func(prim, arg string) econd {
+		return econd{"p," + prim + "," + vh.Hex([]byte(arg)) + ",-,0", prim + `("` + arg + `")`}
+	}
+	two := func(prim, arg string) econd {
+		return econd{"p," + prim + "," + vh.Hex([]byte(arg)) + ",-," + ft, prim + `("` + arg + `", ` + fs + `)`}
+	}
+	switch r.Intn(10) {
+	case 0:
+		return econd{"t", "default_t()"}
+	case 1, 2:
+		return one("req_host_in", host)
+	case 3:
+		return one("req_host_suffix_in", r.Pick(".com", ".a.com", "foo.com", ".b", "COM", "www"))
+	case 4:
+		return one("req_method_in", r.Pick("GET", "POST", "GET|POST", "HEAD", "get"))
+	case 5:
+		return one("req_port_in", r.Pick("80", "8080", "80|443", "90"))
+	case 6:
+		return two("req_path_in", path)
+	case 7:
+		return two("req_path_prefix_in", path)
+	case 8:
+		return two("req_path_element_prefix_in", path)
+	default:
+		if r.Bool() {
+			return two("req_path_suffix_in", r.Pick("/a", "b", "/", "ab/", "A"))
+		}
+		return two("req_path_contain", r.Pick("/a/", "b", "//", "foo", "A"))
+	}
+}
+
+func genE(r *vh.Rand) string {
+	rs := c1xroute.GenRules(r, r.Intn(4), true)
+	b := "none"
+	if !r.Chance(1, 6) {
+		b = c1xroute.FormatRules(rs)
+	} else {
+		rs = nil
+	}
+	na := r.Intn(6)
+	var parts []string
+	for i := 0; i < na; i++ {
+		c := genECond(r, rs, 0)
+		cl := "d" + string(rune('0'+i))
+		if r.Chance(1, 40) {
+			cl = ""
+		}
+		parts = append(parts, c.tok+"!"+cl)
+	}
+	p := c1xroute.GenProbePath(r, rs)
+	return "b=" + b + ";c=" + strings.Join(parts, "@") + ";h=" + c1xroute.GenProbeHost(r, rs) + ";p=" + p + ";m=" + r.Pick("GET", "GET", "POST", "HEAD", "get")
+}
+
+// parseTokens rebuilds the condition text from the prefix-notation tokens (exec must be a pure function of the op).
+func parseTokens(ts []string) (string, []string, bool) {
+	if len(ts) == 0 {
+		return "", nil, false
+	}
+	t, rest := ts[0], ts[1:]
+	switch {
+	case t == "t":
+		return "default_t()", rest, true
+	case t == "~":
+		a, r1, ok := parseTokens(rest)
+		return "!" + a, r1, ok
+	case t == "&" || t == "|":
+		a, r1, ok1 := parseTokens(rest)
+		if !ok1 {
+			return "", nil, false
+		}
+		b, r2, ok2 := parseTokens(r1)
+		return "(" + a + " " + t + t + " " + b + ")", r2, ok2
+	}
+	f := strings.Split(t, ",")
+	if len(f) != 5 || f[0] != "p" {
+		return "", nil, false
+	}
+	a0, ok := vh.UnHex(f[2])
+	if !ok {
+		return "", nil, false
+	}
+	switch f[1] {
+	case "req_host_in", "req_host_suffix_in", "req_method_in", "req_port_in":
+		return f[1] + `("` + string(a0) + `")`, rest, true
+	}
+	fold := "false"
+	if f[4] == "1" {
+		fold = "true"
+	}
+	return f[1] + `("` + string(a0) + `", ` + fold + `)`, rest, true
+}
+
 func gen(r0 *vh.Rand) string {
 	r := c1xroute.CaseRand(r0)
+	if r.Chance(1, 3) {
+		return genE(r)
+	}
 	nb := r.Intn(5)
 	rs := c1xroute.GenRules(r, nb, true)
 	hasBasic := !r.Chance(1, 6)
@@ -105,6 +249,24 @@ func gen(r0 *vh.Rand) string {
 func exec(op string) string {
 	b, ok1 := c1xroute.KV(op, "b")
 	a, ok2 := c1xroute.KV(op, "a")
+	if cs, okc := c1xroute.KV(op, "c"); okc && !ok2 {
+		// end-to-end variant: rebuild the advanced rules from the structured conditions
+		var as []c1xroute.Adv
+		if cs != "" {
+			for _, x := range strings.Split(cs, "@") {
+				f := strings.Split(x, "!")
+				if len(f) != 2 {
+					return "bad-op"
+				}
+				src, rest, ok := parseTokens(strings.Fields(f[0]))
+				if !ok || len(rest) != 0 {
+					return "bad-op"
+				}
+				as = append(as, c1xroute.Adv{Cond: src, Cluster: f[1]})
+			}
+		}
+		a, ok2 = c1xroute.FormatAdv(as), true
+	}
 	h, ok3 := c1xroute.KV(op, "h")
 	p, ok4 := c1xroute.KV(op, "p")
 	m, ok5 := c1xroute.KV(op, "m")
